@@ -22,7 +22,10 @@ SCHEMA = {
     },
 }
 PKT = ('mobj', 'CCSDSPacket')
-INT_ENCODINGS = "(self.encoding == 'unsigned' or self.encoding == 'signed' or self.encoding == 'twosComplement')"
+# the spellings the library documents: 'unsigned', XTCE's 'twosComplement', and the unofficial 'signed' and
+# 'twosCompliment' [sic] named in the constructor's docstring (all but 'unsigned' are two's complement)
+INT_ENCODINGS = ("(self.encoding == 'unsigned' or self.encoding == 'signed' or self.encoding == 'twosComplement' or "
+                 "self.encoding == 'twosCompliment')")
 INB = 'old(packet.raw_data.pos) + self.size_in_bits <= 8 * len(packet.raw_data)'
 
 
@@ -46,7 +49,7 @@ def _build_twos(r):
 def _gen_int(rng, tier, variant):
     """widths 1..72 x {unsigned, signed, twosComplement} x both byte orders x bit offsets 0..15, boundary and random
     bit patterns; also reads that extend past the end of the packet"""
-    encs = ['unsigned', 'signed', 'twosComplement']
+    encs = ['unsigned', 'signed', 'twosComplement', 'twosCompliment']
     orders = ['mostSignificantByteFirst', 'leastSignificantByteFirst']
     widths = list(range(1, 34)) + [40, 48, 56, 63, 64, 65, 72]
     for w in widths:
@@ -182,7 +185,7 @@ def _gen_numeric(rng, tier, variant):
     0..15) and float encodings (IEEE754 16/32/64 and MILSTD_1750A, both byte orders; special bit patterns: zeros,
     signed zero, inf, NaN, subnormals, max) with no calibrator / default polynomial / default spline / context
     calibrator lists (criteria on an earlier parameter and on the field's own raw value) with and without default"""
-    encs = ['unsigned', 'signed', 'twosComplement']
+    encs = ['unsigned', 'signed', 'twosComplement', 'twosCompliment']
     orders = ['mostSignificantByteFirst', 'leastSignificantByteFirst']
     n = 700 if tier == 'quick' else 12000
     for i in range(n):
@@ -625,7 +628,8 @@ def _size_contract(target, fixed, lookups, ref, adj, refval, fixed_truthy, consu
     clauses = {k: (v[0].replace('RESULT', 'result'), v[1]) for k, v in clauses.items()}
     return Contract(
         target=target,
-        props=['C07', 'C14', 'C01'],
+        # C06: the looked-up lengths are what DiscreteLookup results select (its last sentence)
+        props=['C07', 'C14', 'C01', 'C06'],
         params={'self': ('rec', target.split('.')[2]), 'packet': PKT_INTS},
         returns='int',
         # a linear adjustment only accompanies a parameter reference (that is how the XTCE reader builds encodings, and
